@@ -1,9 +1,17 @@
 import BeyondVerif.Model.Ccsds
 /-!
-Kernel-checked counter-witnesses (`decide`) for the clauses of C13 that the current code falsifies.
-Each is a concrete message on which the *model* (shown by the correspondence run to behave as
-beyond/io/ccsds does) fails to restore / reload / re-dump.  The same inputs are replayed on the
-real `dumps`/`loads` by harness/props/C13.py (`witness_specs`), families as in known_findings.d/C13.json.
+Kernel-checked instances (`decide`) on concrete messages of the *model* (shown by the correspondence
+run to behave as beyond/io/ccsds does).  The same inputs are replayed on the real `dumps`/`loads`
+by harness/props/C13.py (`witness_specs`), families as in known_findings.d/C13.json.
+
+History.  Until /repo commits 099db41, b4d12f5, dce331f, dfcb25d this file held counter-witnesses:
+a one-point / one-covariance OEM, a one-observation TDM, a one-user-defined OPM/OMM could not be read
+back from XML (lone dict / Field iterated), an empty user-defined dict crashed `xml2dict`, a QSW
+maneuver came back tagged RSW, a loaded OMM could not be dumped in KVN (`data.tle`), Doppler was
+written but not read, elevations without azimuths lacked ANGLE_TYPE.  Those fixes are in; the model
+follows them through the regenerated tables, and the same inputs are now *positive* instances
+(`…_ok`).  If a fix is reverted the regenerated tables flip and these theorems stop building.
+Still a counter-witness: `tdm_two_paths_reload_as_list` (open finding C13-tdm-multi-path-reloads-as-list).
 -/
 namespace BeyondVerif.C13W
 open BeyondVerif.Ccsds BeyondVerif.Generated
@@ -15,15 +23,16 @@ def cov0 : CovM := { frame := none, tri := tri21 }
 def seg (pts : List Point) : Seg :=
   { name := "SAT", id := "2020-001A", frame := "EME2000", scale := "UTC", method := "LAGRANGE", order := some (.s "8"), points := pts }
 
-/-- lead 11a: an OEM with a single ephemeris point cannot be read back from XML (`TypeError`) … -/
-theorem oem_xml_one_point_fails : (oemXml [seg [pt "t0"]] >>= loadOemXml) = .error .typeError := by decide
-/-- … while the same message in KVN, and two points in XML, come back unchanged -/
+/-- (was lead 11a, fixed 099db41) an OEM with a single ephemeris point is read back from XML … -/
+theorem oem_xml_one_point_ok : (oemXml [seg [pt "t0"]] >>= loadOemXml) = .ok [seg [pt "t0"]] := by decide
+/-- … as it is from KVN, and as two points are from XML -/
 theorem oem_kvn_one_point_ok : (oemKvn [seg [pt "t0"]] >>= loadOemKvn) = .ok [seg [pt "t0"]] := by decide
 theorem oem_xml_two_points_ok : (oemXml [seg [pt "t0", pt "t1"]] >>= loadOemXml) = .ok [seg [pt "t0", pt "t1"]] := by decide
 
-/-- lead 11b: a single covariance block in an XML OEM -/
-theorem oem_xml_one_cov_fails :
-    (oemXml [seg [{ pt "t0" with cov := some cov0 }, pt "t1"]] >>= loadOemXml) = .error .typeError := by decide
+/-- (was lead 11b, fixed 099db41) a single covariance block in an XML OEM -/
+theorem oem_xml_one_cov_ok :
+    (oemXml [seg [{ pt "t0" with cov := some cov0 }, pt "t1"]] >>= loadOemXml) = .ok [seg [{ pt "t0" with cov := some cov0 }, pt "t1"]] := by
+  decide
 theorem oem_kvn_one_cov_ok :
     (oemKvn [seg [{ pt "t0" with cov := some cov0 }, pt "t1"]] >>= loadOemKvn) = .ok [seg [{ pt "t0" with cov := some cov0 }, pt "t1"]] := by
   decide
@@ -33,10 +42,10 @@ def opm0 : Opm :=
     mans := [], ud := none }
 def manQ (f : Option String) : Man := { dur := 0, epoch := .s "t1", frame := f, comment := some "burn", dv := [.s "0.001000", .s "0.002000", .s "0.003000"] }
 
-/-- lead 12: a QSW maneuver is written `RSW` and comes back tagged `RSW` (both encodings) -/
-theorem opm_qsw_man_reloads_rsw :
-    (opmKvn { opm0 with mans := [manQ (some "QSW")] } >>= loadOpmKvn) = .ok { opm0 with mans := [manQ (some "RSW")] } ∧
-    (opmXml { opm0 with mans := [manQ (some "QSW")] } >>= loadOpmXml) = .ok { opm0 with mans := [manQ (some "RSW")] } := by
+/-- (was lead 12, fixed b4d12f5) a QSW maneuver is written `RSW` and comes back as QSW (both encodings) -/
+theorem opm_qsw_man_ok :
+    (opmKvn { opm0 with mans := [manQ (some "QSW")] } >>= loadOpmKvn) = .ok { opm0 with mans := [manQ (some "QSW")] } ∧
+    (opmXml { opm0 with mans := [manQ (some "QSW")] } >>= loadOpmXml) = .ok { opm0 with mans := [manQ (some "QSW")] } := by
   decide
 /-- TNW maneuvers and maneuvers in the orbit's own frame are restored -/
 theorem opm_tnw_man_ok :
@@ -44,57 +53,61 @@ theorem opm_tnw_man_ok :
     (opmXml { opm0 with mans := [manQ (some "TNW"), manQ none] } >>= loadOpmXml) = .ok { opm0 with mans := [manQ (some "TNW"), manQ none] } := by
   decide
 
-/-- a single user-defined parameter cannot be read back from XML (OPM and OMM): the lone `Field` is iterated -/
-theorem opm_xml_one_user_defined_fails :
-    (opmXml { opm0 with ud := some [("FOO", "bar")] } >>= loadOpmXml) = .error .attrError ∧
+/-- (fixed 099db41) a single user-defined parameter is read back from XML (OPM and OMM) -/
+theorem opm_one_user_defined_ok :
+    (opmXml { opm0 with ud := some [("FOO", "bar")] } >>= loadOpmXml) = .ok { opm0 with ud := some [("FOO", "bar")] } ∧
     (opmKvn { opm0 with ud := some [("FOO", "bar")] } >>= loadOpmKvn) = .ok { opm0 with ud := some [("FOO", "bar")] } ∧
     (opmXml { opm0 with ud := some [("FOO", "bar"), ("B", "c")] } >>= loadOpmXml) = .ok { opm0 with ud := some [("FOO", "bar"), ("B", "c")] } := by
   decide
-/-- an empty user-defined dict gives an element without text: `xml2dict` itself fails -/
-theorem opm_xml_empty_user_defined_fails : (opmXml { opm0 with ud := some [] } >>= loadOpmXml) = .error .attrError := by decide
+/-- (fixed 099db41) an empty user-defined dict is not written: it reloads as "no user-defined fields" in both encodings -/
+theorem opm_empty_user_defined_ok :
+    (opmXml { opm0 with ud := some [] } >>= loadOpmXml) = .ok opm0 ∧ (opmKvn { opm0 with ud := some [] } >>= loadOpmKvn) = .ok opm0 := by decide
 
 def omm0 : Omm :=
   { name := "SAT", id := "2020-001A", frame := "TEME", scale := "UTC", epoch := .s "t0",
     elems := [.s "15.72125391", .s "0.0006703", .s "51.6416", .s "247.4627", .s "130.5360", .s "325.0288"],
     tle := [.s "25544", .s "292", .s "56353", .s "-0.000011606", .s "-0.00002182", .s "0.0"], cov := none, ud := none, hasTle := true }
 
-theorem omm_xml_one_user_defined_fails : (ommXml { omm0 with ud := some [("FOO", "bar")] } >>= loadOmmXml) = .error .attrError := by decide
+theorem omm_xml_one_user_defined_ok :
+    (ommXml { omm0 with ud := some [("FOO", "bar")] } >>= loadOmmXml) = .ok { omm0 with ud := some [("FOO", "bar")], hasTle := false } := by decide
 
-/-- lead 13a: what `loads` returns for an OMM has no `tle` attribute, so it cannot be dumped in KVN again
-(XML works); the same holds for any Orbit not made from a `Tle` -/
-theorem omm_loaded_cannot_be_dumped_kvn :
+/-- (was lead 13a, fixed dce331f) what `loads` returns for an OMM has no `tle` attribute; it can be dumped
+again in KVN and in XML, and reloads as itself -/
+theorem omm_loaded_can_be_dumped_again :
     (ommKvn omm0 >>= loadOmmKvn) = .ok { omm0 with hasTle := false } ∧
-    (ommKvn { omm0 with hasTle := false }) = .error .attrError ∧
-    ((ommXml { omm0 with hasTle := false }).toOption.isSome = true) := by
+    (ommKvn { omm0 with hasTle := false } >>= loadOmmKvn) = .ok { omm0 with hasTle := false } ∧
+    (ommXml { omm0 with hasTle := false } >>= loadOmmXml) = .ok { omm0 with hasTle := false } := by
   decide
 
 def ob (k : String) (e : String) : Obs := { kind := k, path := ["STA", "SAT", "STA"], epoch := .s e, value := .s "1234.500000" }
 
-/-- lead 11c: a measurement set with one observation cannot be read back from XML -/
-theorem tdm_xml_one_obs_fails :
-    (tdmXml { scale := "UTC", obs := [ob "Range" "t0"] } >>= loadTdmXml) = .error .attrError ∧
+/-- (was lead 11c, fixed 099db41) a measurement set with one observation is read back from XML -/
+theorem tdm_one_obs_ok :
+    (tdmXml { scale := "UTC", obs := [ob "Range" "t0"] } >>= loadTdmXml) = .ok ("UTC", [[ob "Range" "t0"]]) ∧
     (tdmKvn { scale := "UTC", obs := [ob "Range" "t0"] } >>= loadTdmKvn) = .ok ("UTC", [[ob "Range" "t0"]]) ∧
     (tdmXml { scale := "UTC", obs := [ob "Range" "t0", ob "Range" "t1"] } >>= loadTdmXml) = .ok ("UTC", [[ob "Range" "t0", ob "Range" "t1"]]) := by
   decide
 
-/-- lead 13b: Doppler measurements are written (`DOPPLER_INSTANTANEOUS`) but refused by both readers -/
-theorem tdm_doppler_not_read :
-    (tdmKvn { scale := "UTC", obs := [ob "Doppler" "t0", ob "Doppler" "t1"] } >>= loadTdmKvn) = .error .ccsdsError ∧
-    (tdmXml { scale := "UTC", obs := [ob "Doppler" "t0", ob "Doppler" "t1"] } >>= loadTdmXml) = .error .ccsdsError := by
+/-- (was lead 13b, fixed dfcb25d) Doppler measurements are written (`DOPPLER_INSTANTANEOUS`) and read by both readers -/
+theorem tdm_doppler_ok :
+    (tdmKvn { scale := "UTC", obs := [ob "Doppler" "t0", ob "Doppler" "t1"] } >>= loadTdmKvn) = .ok ("UTC", [[ob "Doppler" "t0", ob "Doppler" "t1"]]) ∧
+    (tdmXml { scale := "UTC", obs := [ob "Doppler" "t0", ob "Doppler" "t1"] } >>= loadTdmXml) = .ok ("UTC", [[ob "Doppler" "t0", ob "Doppler" "t1"]]) := by
   decide
 
-/-- elevations without azimuths: `ANGLE_TYPE` is only written when an azimuth is present, but needed to read `ANGLE_2` -/
-theorem tdm_elevation_without_azimuth_fails :
-    (tdmKvn { scale := "UTC", obs := [ob "Elevation" "t0", ob "Elevation" "t1"] } >>= loadTdmKvn) = .error .keyError ∧
-    (tdmXml { scale := "UTC", obs := [ob "Elevation" "t0", ob "Elevation" "t1"] } >>= loadTdmXml) = .error .unboundLocal := by
+/-- (fixed dfcb25d) elevations without azimuths: `ANGLE_TYPE` is now written for them too -/
+theorem tdm_elevation_without_azimuth_ok :
+    (tdmKvn { scale := "UTC", obs := [ob "Elevation" "t0", ob "Elevation" "t1"] } >>= loadTdmKvn) = .ok ("UTC", [[ob "Elevation" "t0", ob "Elevation" "t1"]]) ∧
+    (tdmXml { scale := "UTC", obs := [ob "Elevation" "t0", ob "Elevation" "t1"] } >>= loadTdmXml) = .ok ("UTC", [[ob "Elevation" "t0", ob "Elevation" "t1"]]) := by
   decide
 
 def ob2 (e : String) : Obs := { kind := "Range", path := ["STB", "SAT"], epoch := .s e, value := .s "99.000000" }
 
-/-- a set with two paths is written as two segments and read as a *list* of two sets, which `dumps` does not accept -/
+/-- OPEN finding: a set with two paths is written as two segments and read as a *list* of two sets, which `dumps`
+(`detect2dump`) does not accept: what was read cannot be written again -/
 theorem tdm_two_paths_reload_as_list :
     (tdmKvn { scale := "UTC", obs := [ob "Range" "t0", ob "Range" "t1", ob2 "t0", ob2 "t1"] } >>= loadTdmKvn)
-      = .ok ("UTC", [[ob "Range" "t0", ob "Range" "t1"], [ob2 "t0", ob2 "t1"]]) := by
+      = .ok ("UTC", [[ob "Range" "t0", ob "Range" "t1"], [ob2 "t0", ob2 "t1"]]) ∧
+    tdmOfSets ("UTC", [[ob "Range" "t0", ob "Range" "t1"], [ob2 "t0", ob2 "t1"]]) = .error .typeError := by
   decide
 
 end BeyondVerif.C13W
